@@ -183,7 +183,7 @@ PROPERTIES = {
         'units': SM_KICK + SM_FP + [sm.IdentityApply, sm.KickMapApplyTo, sm.FokkerPlanckApplyTo, sm.SourceMapApplyToAll,
                                     ps.RulerCtor, ps.SimpsonWeights, ps.UpdateXProjection, ps.UpdateYProjection, ps.Integrate, ps.Normalize, ps.Average, ps.Variance, ps.Swap, ps.MakePSFromTXTLoop, ps.PhaseSpaceCtor, ps.PhaseSpaceCtor8, ps.PhaseSpaceCtor12, ps.PhaseSpaceCopyCtor, ps.CreateFromProjections, ps.Gaus,
                                     ef.PadBunchProfiles, ef.WakePotential, ef.UpdateCSR, ef.ElectricFieldCtor, ef.ElectricFieldCtor11, ef.InitWakeLossFFT,
-                                    mainspec.MainConfig, mainspec.MainTrackingFile, mainspec.MainStartDistribution, mainspec.MainMaps, mainspec.MainFields, io.HDF5FileSources, io.HDF5AppendField, io.HDF5AppendTracks, io.HDF5AppendData3f, io.HDF5AppendData2f, io.HDF5AppendData1f, io.HDF5AppendData4f, io.HDF5AppendData2a, io.HDF5AppendData3p, io.ReadPhaseSpace, io.ProgramOptionsGetters] + Z_UNITS,
+                                    mainspec.MainConfig, mainspec.MainTrackingFile, mainspec.MainStartDistribution, mainspec.MainMaps, mainspec.MainFields, io.HDF5FileSources, io.HDF5AppendField, io.HDF5AppendTracks, io.HDF5MakeDatasetInfo3f, io.HDF5MakeDatasetInfo1f, io.HDF5MakeDatasetInfo1u, io.HDF5MakeDatasetInfo2f, io.HDF5MakeDatasetInfo4f, io.HDF5AppendData3f, io.HDF5AppendData2f, io.HDF5AppendData1f, io.HDF5AppendData4f, io.HDF5AppendData2a, io.HDF5AppendData3p, io.ReadPhaseSpace, io.ProgramOptionsGetters] + Z_UNITS,
         'leaves': [leaf.UpperPow2Leaf, leaf.FPApplyToLeaf, leaf.KickApplyToLeaf, leaf.PSxLeaf, leaf.PSyLeaf],
         'lemmas': [],
         'level': 'other',
@@ -248,7 +248,7 @@ PROPERTIES = {
     },
     'C10': {
         'main_scenarios': ['records'],
-        'units': [mainloop.MainLoop, mainspec.MainWiring, mainspec.MapDispatch, mainspec.MainUnits, io.HDF5FileUnits, ps.PhaseSpaceCtor12, ps.RulerCtor, ef.ElectricFieldScale, io.ProgramOptionsGetters, io.ProgramOptionsPrecedence, io.ProgramOptionsSave, ps.UpdateXProjection, ps.UpdateYProjection, ps.Integrate, ps.Variance, ef.WakePotential, ef.UpdateCSR, io.HDF5FileSources, io.HDF5AppendField, io.HDF5AppendTracks, io.HDF5AppendData3f, io.HDF5AppendData2f, io.HDF5AppendData1f, io.HDF5AppendData4f, io.HDF5AppendData2a, io.HDF5AppendData3p, io.ReadPhaseSpace, io.MakePSFromHDF5],
+        'units': [mainloop.MainLoop, mainspec.MainWiring, mainspec.MapDispatch, mainspec.MainUnits, io.HDF5FileUnits, ps.PhaseSpaceCtor12, ps.RulerCtor, ef.ElectricFieldScale, io.ProgramOptionsGetters, io.ProgramOptionsPrecedence, io.ProgramOptionsSave, ps.UpdateXProjection, ps.UpdateYProjection, ps.Integrate, ps.Variance, ef.WakePotential, ef.UpdateCSR, io.HDF5FileSources, io.HDF5AppendField, io.HDF5AppendTracks, io.HDF5MakeDatasetInfo3f, io.HDF5MakeDatasetInfo1f, io.HDF5MakeDatasetInfo1u, io.HDF5MakeDatasetInfo2f, io.HDF5MakeDatasetInfo4f, io.HDF5AppendData3f, io.HDF5AppendData2f, io.HDF5AppendData1f, io.HDF5AppendData4f, io.HDF5AppendData2a, io.HDF5AppendData3p, io.ReadPhaseSpace, io.MakePSFromHDF5],
         'lemmas': [],
         'level': 'other',
         'claim': 'partial: every record of a multi-row dataset takes row b from row b of its source (dataset extents vs buffer layout; for /CSR/Spectrum proved on the row copy of append(ElectricField*)) and no append reads beyond its source buffer; at every output event and at exit the CSR, wake-potential and particle datasets receive as many records as the time axis; the time value of the final record is simulationstep/steps; the derived quantities appended are the ones '
